@@ -508,8 +508,34 @@ def scn_history(ctx):
             elif st == "taus_call":
                 tq = obj("taus")
                 b, e = L(P["beta"][idx], "lb"), L(P["logE"][idx], "le")
+                pl = None
+                if n <= 64 and ch.draw(10, "plot") == 9:
+                    # the stage's optional plot hooks (non-interactive backend): a plot must neither
+                    # touch the arguments nor the results
+                    names = ("taus_pexit", "taus_density_beta", "taus_histogram") + (("taus_overview",) if tier == "thorough" or ch.draw(4, "slow_plot") == 3 else ())
+                    pl = names[ch.draw(len(names), "plot_name")]
                 with histsim.constant_stream():
-                    out = _guard_args(ctx, "Taus.__call__", opi, [b, e], lambda: tq(b, e), lambda: Taus(cfg)(np.array(b), np.array(e)))
+                    if pl:
+                        import matplotlib.pyplot as plt
+
+                        def with_plot():
+                            try:
+                                return tq(b, e, plot=pl)
+                            finally:
+                                plt.close("all")
+
+                        try:
+                            out = _guard_args(ctx, f"Taus.__call__(plot={pl})", opi, [b, e], with_plot, None)
+                            ctx.probes["call_with_plot_hook"] += 1
+                        except Violation:
+                            raise
+                        except Exception:  # noqa: BLE001
+                            # the plot code's own trouble with this batch is not this property's business
+                            ctx.probes["plot_hook_raised"] += 1
+                            b, e = np.array(P["beta"][idx]), np.array(P["logE"][idx])
+                            out = _guard_args(ctx, "Taus.__call__", opi, [b, e], lambda: tq(b, e), lambda: Taus(cfg)(np.array(b), np.array(e)))
+                    else:
+                        out = _guard_args(ctx, "Taus.__call__", opi, [b, e], lambda: tq(b, e), lambda: Taus(cfg)(np.array(b), np.array(e)))
                 if out is _FAILED:
                     continue
                 memo.observe(ctx, "Taus.__call__", "const", idx, list(out), opi, n)
